@@ -114,6 +114,7 @@ def c20(tier):
     selftest.run(P, C, ('ts2', 'nl1'))
     ts.run_c20(P, C)
     ts.ts7(P, C)
+    ts.ts3b(P, C)
     nl.nl1(P, C)
     nl.nl2(P, C)
     # invalid arguments of convolve are refused before anything is read or changed
